@@ -7735,7 +7735,7 @@ type elem =
 | EHeading of nat * text
 | EBlank
 | EForeign of nat * text * text list * text
-| EScrut of nat * text option * text list
+| EScrut of nat * text option * text * text list
    * ((text * text list) * bline list) option * text
 
 (** val fence : nat -> text **)
@@ -7766,16 +7766,17 @@ let render_elem = function
 | EBlank -> [] :: []
 | EForeign (n0, lang, body, tail) ->
   app ((app (fence n0) lang) :: []) (app body ((app (fence n0) tail) :: []))
-| EScrut (n0, cfg, comments, cmd, tail) ->
+| EScrut (n0, cfg, hs, comments, cmd, tail) ->
   app
     ((app (fence n0)
        (app sCRUT
-         (match cfg with
-          | Some c ->
-            app ((Npos (XO (XO (XO (XO (XO XH)))))) :: ((Npos (XI (XI (XO (XI
-              (XI (XI XH))))))) :: []))
-              (app c ((Npos (XI (XO (XI (XI (XI (XI XH))))))) :: []))
-          | None -> []))) :: [])
+         (app
+           (match cfg with
+            | Some c ->
+              app ((Npos (XO (XO (XO (XO (XO XH)))))) :: ((Npos (XI (XI (XO
+                (XI (XI (XI XH))))))) :: []))
+                (app c ((Npos (XI (XO (XI (XI (XI (XI XH))))))) :: []))
+            | None -> []) hs))) :: [])
     (app comments
       (app
         (match cmd with
@@ -7819,7 +7820,7 @@ let rec md_tests_from d line st =
      | EBlank -> md_tests_from r next (title_line st [])
      | EForeign (_, _, _, _) ->
        md_tests_from r next { ts_para = []; ts_title = st.ts_title }
-     | EScrut (_, cfg, comments, cmd, _) ->
+     | EScrut (_, cfg, _, comments, cmd, _) ->
        (match cmd with
         | Some p ->
           let (p0, body) = p in
@@ -7924,20 +7925,22 @@ let elem_ok pe_ok front_ok cfg_ok first = function
     ((&&) ((&&) (leb (S (S (S O))) n0) (lang_ok lang))
       (forallb (fun l -> (&&) (negb (closes n0 l)) (no_nl l)) body))
     (no_nl tail)
-| EScrut (n0, cfg, comments, cmd, tail) ->
+| EScrut (n0, cfg, hs, comments, cmd, tail) ->
   (&&)
     ((&&)
-      ((&&) ((&&) (leb (S (S (S O))) n0) (no_nl tail))
-        (match cfg with
-         | Some c -> cfg_text_ok cfg_ok c
-         | None -> true))
-      (forallb (fun l -> (&&) (is_comment l) (no_nl l)) comments))
-    (match cmd with
-     | Some p ->
-       let (p0, body) = p in
-       let (c, conts) = p0 in
-       (&&) ((&&) (no_nl c) (forallb no_nl conts)) (md_body_ok pe_ok n0 body)
-     | None -> true)
+      ((&&)
+        ((&&) ((&&) (leb (S (S (S O))) n0) (no_nl tail))
+          (match cfg with
+           | Some c -> cfg_text_ok cfg_ok c
+           | None -> true))
+        (forallb (fun l -> (&&) (is_comment l) (no_nl l)) comments))
+      (match cmd with
+       | Some p ->
+         let (p0, body) = p in
+         let (c, conts) = p0 in
+         (&&) ((&&) (no_nl c) (forallb no_nl conts))
+           (md_body_ok pe_ok n0 body)
+       | None -> true)) ((&&) (forallb is_white hs) (no_nl hs))
 
 (** val wf_md_from :
     (text -> bool) -> (text list -> bool) -> (text -> bool) -> bool -> elem
@@ -11587,7 +11590,7 @@ let gen_md_doc m title cmd conts lines code =
      | Some t -> (EHeading ((S O), t)) :: (EBlank :: [])
      | None -> []) ((EScrut ((S
     (max_bt (S (S O)) (md_block_text cmd conts (gen_body m lines code)))),
-    None, [], (Some ((cmd, conts), (gen_body m lines code))), [])) :: [])
+    None, [], [], (Some ((cmd, conts), (gen_body m lines code))), [])) :: [])
 
 type gtest = { g_title : n list option; g_cmd : n list;
                g_conts : n list list; g_lines : n list list; g_code : 
@@ -11618,8 +11621,8 @@ let gen_md_one m cfg t =
      | None -> []) ((EScrut ((S
     (max_bt (S (S O))
       (md_block_text t.g_cmd t.g_conts (gen_body m t.g_lines t.g_code)))),
-    cfg, [], (Some ((t.g_cmd, t.g_conts), (gen_body m t.g_lines t.g_code))),
-    [])) :: [])
+    cfg, [], [], (Some ((t.g_cmd, t.g_conts),
+    (gen_body m t.g_lines t.g_code))), [])) :: [])
 
 (** val gen_md_docs : mode -> n list option -> gtest list -> elem list **)
 
